@@ -43,6 +43,39 @@ pub enum Flag {
     VerifyHeaderWrong(u32),
     VerifyHeaderBitOff(u16),
     VerifyOutput,
+    /// a WRONG pin written with upper-case hex letters: the archive's checksum in hex with some of its digits 1..6 replaced
+    /// by the letters A..F (another value); for odd selectors the remaining letters are in mixed case too. Decided by the CLI's text-to-bytes step,
+    /// so these cases always go through the real CLI.
+    VerifyHeaderUpperCaseWrong(u16),
+}
+
+/// the pin as typed on the command line
+fn pin_text(b: &Built, f: &Flag) -> Option<String> {
+    match f {
+        Flag::VerifyHeaderUpperCaseWrong(sel) => {
+            let real = hex::encode(&b.header.checksum);
+            let mut r = SplitMix(*sel as u64 ^ 0xCA5E);
+            let mut changed = false;
+            let mut out: String = real
+                .chars()
+                .map(|ch| match ch {
+                    '1'..='6' if r.below(3) == 0 => {
+                        changed = true;
+                        (b'A' + (ch as u8 - b'1')) as char
+                    }
+                    'a'..='f' if *sel % 2 == 1 && r.below(2) == 0 => ch.to_ascii_uppercase(),
+                    _ => ch,
+                })
+                .collect();
+            if !changed {
+                // no digit 1..6 was picked: make it wrong in the plainest way
+                let first = if out.starts_with('0') { "F" } else { "0" };
+                out.replace_range(0..1, first);
+            }
+            Some(out)
+        }
+        _ => expected_header_arg(b, f).map(hex::encode),
+    }
 }
 
 #[derive(Clone, Debug, Serialize, Deserialize, PartialEq)]
@@ -153,6 +186,7 @@ fn expected_header_arg(b: &Built, f: &Flag) -> Option<Vec<u8>> {
             }
             Some(v)
         }
+        Flag::VerifyHeaderUpperCaseWrong(_) => pin_text(b, f).and_then(|t| hex::decode(t).ok()),
         Flag::VerifyHeaderBitOff(bit) => {
             let mut v = b.header.checksum.clone();
             let bit = *bit as usize % 512;
@@ -206,7 +240,7 @@ pub fn eval(b: &Built, c: &Case, rec: &mut CaseRec) -> Result<(), String> {
     };
     let exp = expected_header_arg(b, &c.flag);
     let server_bad = matches!(c.serve, Serve::HttpBad { .. });
-    let use_l2 = c.l2 || risky(b, &mutated);
+    let use_l2 = c.l2 || risky(b, &mutated) || matches!(c.flag, Flag::VerifyHeaderUpperCaseWrong(_));
     // ---- run
     let (success, out, stage): (bool, Option<Vec<u8>>, String) = if use_l2 {
         let dir = worker_dir("C04");
@@ -218,9 +252,9 @@ pub fn eval(b: &Built, c: &Case, rec: &mut CaseRec) -> Result<(), String> {
             args.push("--seed".into());
             args.push("seed.bin".into());
         }
-        if let Some(e) = &exp {
+        if let Some(t) = pin_text(b, &c.flag) {
             args.push("--verify-header".into());
-            args.push(hex::encode(e));
+            args.push(t);
         }
         if c.flag == Flag::VerifyOutput {
             args.push("--verify-output".into());
@@ -269,7 +303,7 @@ pub fn eval(b: &Built, c: &Case, rec: &mut CaseRec) -> Result<(), String> {
             return Err(format!("header: a change at offset {:?} < header length {} was not rejected when the archive was opened ({:?})", changed_at, header_len, c.corr));
         }
         match c.flag {
-            Flag::VerifyHeaderWrong(_) | Flag::VerifyHeaderBitOff(_) => {
+            Flag::VerifyHeaderWrong(_) | Flag::VerifyHeaderBitOff(_) | Flag::VerifyHeaderUpperCaseWrong(_) => {
                 return Err(format!("verify-header: clone proceeded although the expected checsum ({:?}) is not the archive's header checksum", c.flag));
             }
             _ => {}
@@ -279,13 +313,13 @@ pub fn eval(b: &Built, c: &Case, rec: &mut CaseRec) -> Result<(), String> {
             return Err(format!("header: change at offset {:?} inside the header was not rejected at open but later ({})", changed_at, stage));
         }
         // an intact archive from an honest source with the right expectations must clone
-        if c.corr == Corruption::None && !server_bad && !matches!(c.flag, Flag::VerifyHeaderWrong(_) | Flag::VerifyHeaderBitOff(_)) {
+        if c.corr == Corruption::None && !server_bad && !matches!(c.flag, Flag::VerifyHeaderWrong(_) | Flag::VerifyHeaderBitOff(_) | Flag::VerifyHeaderUpperCaseWrong(_)) {
             return Err(format!("intact archive with {:?} failed to clone: {}", c.flag, stage));
         }
     }
     // classification
     let in_fetched = changed_at.map(|p| b.fetched.iter().any(|(o, n)| (p as u64) >= *o && (p as u64) < *o + *n as u64)).unwrap_or(false);
-    rec.nontrivial = header_changed || in_fetched || server_bad || matches!(c.flag, Flag::VerifyHeaderWrong(_) | Flag::VerifyHeaderBitOff(_));
+    rec.nontrivial = header_changed || in_fetched || server_bad || matches!(c.flag, Flag::VerifyHeaderWrong(_) | Flag::VerifyHeaderBitOff(_) | Flag::VerifyHeaderUpperCaseWrong(_));
     rec.class_if(header_changed, "header_altered");
     rec.class_if(in_fetched, "fetched_chunk_data_altered");
     rec.class_if(changed_at.is_some() && !header_changed && !in_fetched, "unfetched_or_padding_altered");
@@ -298,6 +332,7 @@ pub fn eval(b: &Built, c: &Case, rec: &mut CaseRec) -> Result<(), String> {
         Flag::VerifyHeaderRight => "verify_header_right",
         Flag::VerifyHeaderWrong(_) => "verify_header_wrong",
         Flag::VerifyHeaderBitOff(_) => "verify_header_bit_off",
+        Flag::VerifyHeaderUpperCaseWrong(_) => "verify_header_wrong_pin_in_upper_case_hex",
         Flag::VerifyOutput => "verify_output",
     });
     rec.class(match &c.serve {
@@ -340,11 +375,12 @@ fn base_strategy(max_source: u32) -> impl Strategy<Value = Base> {
 
 fn flag_strategy() -> impl Strategy<Value = Flag> {
     prop_oneof![
-        4 => Just(Flag::None),
-        1 => Just(Flag::VerifyHeaderRight),
-        1 => any::<u32>().prop_map(Flag::VerifyHeaderWrong),
-        1 => (0u16..512).prop_map(Flag::VerifyHeaderBitOff),
-        2 => Just(Flag::VerifyOutput),
+        12 => Just(Flag::None),
+        3 => Just(Flag::VerifyHeaderRight),
+        3 => any::<u32>().prop_map(Flag::VerifyHeaderWrong),
+        3 => (0u16..512).prop_map(Flag::VerifyHeaderBitOff),
+        1 => any::<u16>().prop_map(Flag::VerifyHeaderUpperCaseWrong),
+        6 => Just(Flag::VerifyOutput),
     ]
 }
 fn corruption_strategy() -> impl Strategy<Value = Corruption> {
@@ -397,7 +433,7 @@ impl Prop for C04 {
     fn meta(&self, _tier: Tier) -> Meta {
         Meta {
             level: "fault_enumeration",
-            rule: "variant 'exh': for a pool of generated archives (hash length >= 8, all codecs, with and without a seed) EVERY single-bit flip and EVERY truncation length is applied and the archive cloned (library mirror; flips that make the dictionary-size field huge are run through the real CLI in its own process); 'rand': proptest over (archive, corruption in {bit flip, truncation, multi-byte overwrite, payload swap between two descriptors, trailing garbage, dictionary-size edit, none}, flag in {none, --verify-header right / wrong / one-bit-off full-length checksum, --verify-output}, transport in {local, honest HTTP, HTTP answering the n-th request with wrong bytes / 404 or 500 page of the requested length / short body / empty body / a few body bytes and then silence on an open connection (the CLI runs with --http-timeout 1)}), 8% through the real CLI (HTTP clones there get --http-retry-count 1..3 in 1 run of 4). Oracle: the clone fails, or its output equals the source; any change below the header length must be rejected at open; with an expected header checksum the clone proceeds iff it is the archive's. Non-trivial = the altered byte lies in the header or in the stored range of a chunk the clean clone fetches (measured with the recording reader), or the server misbehaves, or the expected checksum is wrong; distinct by Blake2 of the canonical case.".into(),
+            rule: "variant 'exh': for a pool of generated archives (hash length >= 8, all codecs, with and without a seed) EVERY single-bit flip and EVERY truncation length is applied and the archive cloned (library mirror; flips that make the dictionary-size field huge are run through the real CLI in its own process); 'rand': proptest over (archive, corruption in {bit flip, truncation, multi-byte overwrite, payload swap between two descriptors, trailing garbage, dictionary-size edit, none}, flag in {none, --verify-header right / wrong / one-bit-off full-length checksum / a wrong pin typed with upper-case hex letters (through the CLI), --verify-output}, transport in {local, honest HTTP, HTTP answering the n-th request with wrong bytes / 404 or 500 page of the requested length / short body / empty body / a few body bytes and then silence on an open connection (the CLI runs with --http-timeout 1)}), 8% through the real CLI (HTTP clones there get --http-retry-count 1..3 in 1 run of 4). Oracle: the clone fails, or its output equals the source; any change below the header length must be rejected at open; with an expected header checksum the clone proceeds iff it is the archive's. Non-trivial = the altered byte lies in the header or in the stored range of a chunk the clean clone fetches (measured with the recording reader), or the server misbehaves, or the expected checksum is wrong; distinct by Blake2 of the canonical case.".into(),
             assumptions: vec![
                 "expected header checksums are full 64-byte values (prefix equality of abbreviated values is HashSum's documented equality and outside the domain)".into(),
                 "hash collisions at >= 8 bytes are assumed not to occur".into(),
